@@ -28,6 +28,7 @@ type c09Op struct {
 	Tok    int
 	Tok2   int
 	Spin   int
+	Limit  int
 	Future bool
 	Src    string
 	ast    types.MalType
@@ -46,9 +47,9 @@ func init() { register(c09{}) }
 
 var c09Kinds = []string{"swap-cons", "deref", "reset", "swap-conj", "swap-wide", "swap-throw", "swap-typeerr",
 	"swap-reads-other", "swap-derefs-self", "swap-updates-other", "swap-resets-other", "gensym", "memo",
-	"deref-fn", "swap-extra-args", "swap-late-throw", "swap-derefs-self-wide", "swap-in-let", "reset-computed"}
+	"deref-fn", "swap-extra-args", "swap-late-throw", "swap-derefs-self-wide", "swap-in-let", "reset-computed", "swap-bounded", "swap-extra-args3"}
 var c09Weights = []int{5, 4, 3, 2, 3, 1, 1, 2, 1, 2, 1, 1, 1,
-	2, 2, 1, 1, 1, 1}
+	2, 2, 1, 1, 1, 1, 3, 2}
 
 func atomName(i int) string { return "a" + strconv.Itoa(i) }
 
@@ -100,6 +101,12 @@ func (op *c09Op) build() {
 		src = "(let [f (fn [v] (cons " + k + " v)) r (swap! " + a + " f)] r)"
 	case "reset-computed":
 		src = "(reset! " + a + " (cons " + k + " ()))"
+	case "swap-bounded":
+		// succeeds or fails depending on the value it is applied to: (count v) > limit throws
+		src = "(swap! " + a + " (fn [v] (do (spin " + strconv.Itoa(op.Spin%7) + ") (if (> (count v) " + strconv.Itoa(op.Limit) + ") (throw " + k + ") (cons " + k + " v)))))"
+	case "swap-extra-args3":
+		// three distinct extra arguments, all of which must reach the function on every application
+		src = "(swap! " + a + " (fn [v x y z] (cons x (if (= (list y z) (list :y" + k + " \"z" + k + "\")) v (cons :wrong-args v)))) " + k + " :y" + k + " \"z" + k + "\")"
 	case "gensym":
 		src = "(gensym)"
 	case "memo":
@@ -115,8 +122,17 @@ func (op *c09Op) build() {
 // ---- sequential model for porcupine ----
 
 type atomIn struct {
-	Kind string // deref | reset | swap-cons | swap-fail
-	Tok  string
+	Kind  string // deref | reset | swap-cons | swap-fail | swap-bounded
+	Tok   string
+	Limit int
+}
+
+// listLen counts the elements of a canonical flat list of integers "(a b c)".
+func listLen(l string) int {
+	if l == "()" || len(l) < 2 {
+		return 0
+	}
+	return strings.Count(l, " ") + 1
 }
 
 func consCanon(tok, list string) string {
@@ -146,6 +162,12 @@ var atomModel = porcupine.Model{
 			return out == v, v
 		case "swap-fail":
 			return true, st
+		case "swap-bounded":
+			if listLen(st) > in.Limit {
+				return out == "#thrown<"+in.Tok+">", st
+			}
+			v := consCanon(in.Tok, st)
+			return out == v, v
 		}
 		return false, st
 	},
@@ -251,6 +273,7 @@ func (c09) Run(tp *Tape, opt RunOpt) *RunOut {
 			tok++
 			op.Tok2 = tok
 			op.Spin = 3 + tp.Draw(LaneWork, 40)
+			op.Limit = tp.Draw(LaneWork, 5)
 			op.Future = tp.Chance(LaneWork, 1, 6)
 			op.build()
 			ops[op.ID] = op
@@ -297,15 +320,17 @@ func (c09) Run(tp *Tape, opt RunOpt) *RunOut {
 			r := &opRec{atom: op.Atom, call: ev.Seq, label: op.ID + " " + op.Src, topKind: op.Kind}
 			switch op.Kind {
 			case "deref", "deref-fn":
-				r.in = atomIn{"deref", ""}
+				r.in = atomIn{Kind: "deref"}
 			case "reset", "reset-computed":
-				r.in = atomIn{"reset", strconv.Itoa(op.Tok)}
+				r.in = atomIn{Kind: "reset", Tok: strconv.Itoa(op.Tok)}
+			case "swap-bounded":
+				r.in = atomIn{Kind: "swap-bounded", Tok: strconv.Itoa(op.Tok), Limit: op.Limit}
 			case "swap-throw", "swap-typeerr", "swap-late-throw":
-				r.in = atomIn{"swap-fail", strconv.Itoa(op.Tok)}
+				r.in = atomIn{Kind: "swap-fail", Tok: strconv.Itoa(op.Tok)}
 			case "gensym", "memo":
 				r.atom = -1
 			default:
-				r.in = atomIn{"swap-cons", strconv.Itoa(op.Tok)}
+				r.in = atomIn{Kind: "swap-cons", Tok: strconv.Itoa(op.Tok)}
 			}
 			openTop[ev.A] = r
 			recs = append(recs, r)
@@ -337,10 +362,10 @@ func (c09) Run(tp *Tape, opt RunOpt) *RunOut {
 					out.Violations = append(out.Violations, Violation{"C09.failed-update", "swap-typeerr", op.Src + " returned " + ev.B + " instead of an error"})
 				}
 			default:
-				if r.isErr {
+				if r.isErr && op.Kind != "swap-bounded" {
 					// an operation whose update function cannot fail returned an error
 					out.Violations = append(out.Violations, Violation{"C09.spurious-error", op.Kind, op.Src + " failed: " + ev.B})
-					r.in = atomIn{"swap-fail", ""}
+					r.in = atomIn{Kind: "swap-fail"}
 				}
 			}
 		case "begin", "end":
@@ -353,7 +378,7 @@ func (c09) Run(tp *Tape, opt RunOpt) *RunOut {
 			key := strconv.Itoa(ev.Task) + "|" + id
 			if ev.Kind == "begin" {
 				ai, _ := strconv.Atoi(parts[2][1:])
-				r := &opRec{atom: ai, call: ev.Seq, label: "nested " + id, in: atomIn{parts[1], parts[3]}}
+				r := &opRec{atom: ai, call: ev.Seq, label: "nested " + id, in: atomIn{Kind: parts[1], Tok: parts[3]}}
 				openNested[key] = append(openNested[key], r)
 				recs = append(recs, r)
 			} else {
@@ -437,18 +462,21 @@ func (c09) Run(tp *Tape, opt RunOpt) *RunOut {
 			}
 		}
 		if cycle == "" {
-			kset := map[string]bool{}
-			for _, r := range recs {
-				if !r.done && r.topKind != "" {
-					kset[r.topKind] = true
+			// no cycle among update functions: name the places where the tasks wait
+			pset := map[string]bool{}
+			for _, hw := range s.Hang.Waits {
+				p := hw.Point
+				if i := strings.Index(p, ":"); i > 0 && strings.HasPrefix(p, "auto.") {
+					p = p[:i]
 				}
+				pset[p] = true
 			}
-			var ks []string
-			for k := range kset {
-				ks = append(ks, k)
+			var ps []string
+			for k := range pset {
+				ps = append(ps, k)
 			}
-			sort.Strings(ks)
-			cycle = "no-lock-cycle:" + strings.Join(ks, "+")
+			sort.Strings(ps)
+			cycle = "no-lock-cycle:waiting-at:" + strings.Join(ps, "+")
 		}
 		kinds := []string{cycle}
 		out.Violations = append(out.Violations, Violation{"C09.hang", strings.Join(kinds, "+"),
@@ -462,7 +490,7 @@ func (c09) Run(tp *Tape, opt RunOpt) *RunOut {
 		finalSeq := s.seq + 1000
 		for ai := 0; ai < nAtoms; ai++ {
 			v, err := lisp.EVAL(context.Background(), mustRead("@"+atomName(ai)), e)
-			r := &opRec{atom: ai, in: atomIn{"deref", ""}, call: finalSeq, ret: finalSeq + 1, done: true, label: "final @" + atomName(ai)}
+			r := &opRec{atom: ai, in: atomIn{Kind: "deref"}, call: finalSeq, ret: finalSeq + 1, done: true, label: "final @" + atomName(ai)}
 			finalSeq += 2
 			if err != nil {
 				r.out = canonErr(err)
